@@ -94,10 +94,10 @@ def collect(prop, tier, seed):
         proof.append(dict(theorem='(translator) ' + u.get('item', '?'), why='source construct outside the translator subset: ' + u.get('why', '')))
     for h in lean['forbidden']:
         proof.append(dict(theorem='(audit)', why='forbidden token: ' + h))
-    if lean['build_rc'] != 0:
+    if lean['build_rc'] != 0 and lean['broken']:
         closure = vlib.import_closure(P['modules'])
         for m, e in lean['build_errors'].items():
-            if m in closure:      # a module this property's theorems are built on no longer elaborates
+            if m in closure:      # a module this property's (still unchecked) theorems are built on no longer elaborates
                 proof.append(dict(theorem='(module) ' + m, why='\n'.join(e[:12])))
     corr, wfind, crashes = [], [], []
     cov = dict(evaluations=0, cases=0, distinct=0, samples=[], stats={}, configs=[], cached=False, core_wall=0)
@@ -185,7 +185,8 @@ def check(prop, tier, seed):
         checker_cmd='cd lean && lake build ' + ' '.join(P['modules']) + ' && lake env lean <Audit: #print axioms for each theorem>',
         trusted_base=TRUSTED_BASE,
         theorems=P['theorems'], axioms={k: v for k, v in r['lean']['axioms'].items()},
-        generated_files=P.get('gen', []),
+        generated_files=P.get('gen', []), changed_generated_definitions=r['lean'].get('changed_generated', []),
+        theorems_rechecked_with_unrelated_changes_neutralised=r['lean'].get('carried', {}),
         evaluations=r['cov']['evaluations'], distinct_nontrivial=r['cov']['distinct'],
         traces_validated_against_impl=r['cov']['cases'],
         rule='small-scope enumeration (every op x start-state class x argument class x fault index) + seeded random histories, each line executed by the real header (harness) and by the Lean L2 model (svdriver) and compared on the channels of this property; a case is distinct+non-trivial when its (op class, start-state class, fault schedule, exception kind, in-place/reallocating) tuple is new for its configuration',
